@@ -1443,6 +1443,11 @@ def _c20_free_oracle(case, impl):
         if any(o[0] >= 4 and o[1] == _C20_SPC for _, outs in lines for o in outs):
             return None
         dead = {_c20_out_ch(o) for _, outs in lines for o in outs if o[0] >= 4}
+        # the trace cannot tell a dead-key output from a plain output of the same character: no verdict
+        # when the expansion (or a typed key) also writes a dead character plainly (false alarm of the
+        # thorough tier, seventh round: `noerase:z z z b y`)
+        if dead & ({_c20_out_ch(o) for o in want[0] if o[0] < 4} | {str(k) for k in presses}):
+            return None
         req, pend = [], []
         for o in want[0]:
             if o[0] >= 4:
